@@ -324,22 +324,22 @@ theorem execMembers_spec {s0 : CState} {p : Nat} {members : List Nat} {undo : Li
         · exact h2
         · exact h3
 
-theorem unplanMembers_spec {s0 : CState} {p : Nat} {members : List Nat}
+theorem unplanMembersGiven_spec {s0 : CState} {p : Nat} {members : List Nat}
     (hi : MemberInfo U p members) :
     ∀ (rest : List Nat) (bits : List Bool) (s : CState), bits.all id = true → rest.Nodup →
       (∀ m ∈ rest, m ∈ members) → Nodups s →
       (∀ x, x ∈ s.onRoute ↔ x ∈ s0.onRoute ∧ (x ∈ members → x ∈ rest)) →
       (∀ x, x ∈ s.planned ↔ x ∈ s0.planned ∧ x ≠ p) →
       (∀ x, x ∈ s.unplanned ↔ x ∈ s0.unplanned ∨ x = p) →
-      Nodups (unplanMembers U p s rest bits) ∧
-      (∀ x, x ∈ (unplanMembers U p s rest bits).onRoute ↔ x ∈ s0.onRoute ∧ x ∉ members) ∧
-      (∀ x, x ∈ (unplanMembers U p s rest bits).planned ↔ x ∈ s0.planned ∧ x ≠ p) ∧
-      (∀ x, x ∈ (unplanMembers U p s rest bits).unplanned ↔ x ∈ s0.unplanned ∨ x = p) := by
+      Nodups (unplanMembersGiven U p s rest bits) ∧
+      (∀ x, x ∈ (unplanMembersGiven U p s rest bits).onRoute ↔ x ∈ s0.onRoute ∧ x ∉ members) ∧
+      (∀ x, x ∈ (unplanMembersGiven U p s rest bits).planned ↔ x ∈ s0.planned ∧ x ≠ p) ∧
+      (∀ x, x ∈ (unplanMembersGiven U p s rest bits).unplanned ↔ x ∈ s0.unplanned ∨ x = p) := by
   intro rest
   induction rest with
   | nil =>
     intro bits s _ _ _ hn h1 h2 h3
-    simp only [unplanMembers]
+    simp only [unplanMembersGiven]
     refine ⟨hn, ?_, h2, h3⟩
     intro x; rw [h1]; simp
   | cons m rest ih =>
@@ -350,7 +350,7 @@ theorem unplanMembers_spec {s0 : CState} {p : Nat} {members : List Nat}
     have hnd' := List.nodup_cons.mp hnd
     have hip : isPlanned U s m = s.onRoute.contains m := by
       simp only [isPlanned, (hi m hmm).2.1]
-    simp only [unplanMembers, hip, hb1, unplanStops_member hi hmm]
+    simp only [unplanMembersGiven, hip, hb1, unplanStops_member hi hmm]
     by_cases hc : s.onRoute.contains m = true
     · simp only [hc, if_true, Bool.not_true, Bool.false_eq_true, if_false]
       refine ih bits.tail _ hb2 hnd'.2 (fun x hx => hsub x (by simp [hx])) ?_ ?_ ?_ ?_
@@ -367,6 +367,28 @@ theorem unplanMembers_spec {s0 : CState} {p : Nat} {members : List Nat}
       have := h1 x
       simp only [List.mem_cons] at *
       grind
+
+
+/-- when no member's un-plan is rejected the repaired and the given un-plan of the members agree -/
+theorem unplanMembers_eq_given {p : Nat} {members : List Nat} (hi : MemberInfo U p members) :
+    ∀ (rest : List Nat) (bits : List Bool) (s : CState), bits.all id = true → (∀ m ∈ rest, m ∈ members) →
+      unplanMembers U p s rest bits = some (unplanMembersGiven U p s rest bits) := by
+  intro rest
+  induction rest with
+  | nil => intro bits s _ _; simp only [unplanMembers, unplanMembersGiven]
+  | cons m rest ih =>
+    intro bits s hb hsub
+    have hmm : m ∈ members := hsub m (by simp)
+    obtain ⟨hb1, hb2⟩ := headD_of_all hb
+    have hip : isPlanned U s m = s.onRoute.contains m := by
+      simp only [isPlanned, (hi m hmm).2.1]
+    simp only [unplanMembers, unplanMembersGiven, hip, hb1, unplanStops_member hi hmm]
+    by_cases hc : s.onRoute.contains m = true
+    · simp only [hc, if_true, Bool.not_true, Bool.false_eq_true, if_false]
+      exact ih bits.tail _ hb2 (fun x hx => hsub x (by simp [hx]))
+    · have hc' : s.onRoute.contains m = false := by simpa using hc
+      simp only [hc', Bool.false_eq_true, if_false]
+      exact ih bits s hb (fun x hx => hsub x (by simp [hx]))
 
 /-! ### one step -/
 
@@ -545,10 +567,12 @@ theorem step_unplanUnits {s : CState} {p : Nat} {bits : List Bool}
     have hi := memberInfo_of hU hk hnf
     obtain ⟨hpr, hmn, _⟩ := wf_all hU hk
     have hmo : membersOf U p = members := by simp only [membersOf, hk]
-    rw [hmo]
+    simp only [hk]
+    rw [hmo, unplanMembers_eq_given hi members bits _ hbits (fun m hm => hm)]
+    simp only []
     have hn1 : Nodups { s with planned := rem s.planned p, unplanned := add s.unplanned p } :=
       ⟨n1, nodup_rem n2, nodup_add n3, n4⟩
-    have hsp := @unplanMembers_spec U s p members hi members bits
+    have hsp := @unplanMembersGiven_spec U s p members hi members bits
       { s with planned := rem s.planned p, unplanned := add s.unplanned p } hbits hmn
       (fun m hm => hm) hn1 (by simp) (fun x => mem_rem) (fun x => mem_add)
     obtain ⟨k1, a1, a2, a3⟩ := hsp
